@@ -50,6 +50,8 @@ def main():
             res["props"][p] = {"rc": rc, "wall": round(time.time() - t0), "lines": viol[:6], "tail": out[-600:] if rc not in (0, 1) else ""}
     finally:
         sh(f"git -C /repo worktree remove --force {wt}")
+        if "C20" in props:  # the translator rewrote lean/AdaptiveModel/Gen from the patched tree: regenerate from /repo
+            sh("/venv/bin/python harness/translate.py", cwd="/verif")
     print(json.dumps(res, indent=1))
     return res
 
